@@ -78,7 +78,7 @@ fn filter(tag: &str) -> bool {
 }
 
 /// a listener as the oracle sees it
-struct Listener { sid: u32, created_at: usize, created_ret: usize, dropped_at: Option<usize>, got: Vec<(u32, usize, usize)>, stream: Option<std::mem::ManuallyDrop<Box<dyn PollS>>> }
+struct Listener { sid: u32, created_at: usize, created_ret: usize, dropped_at: Option<usize>, dropped_ret: Option<usize>, got: Vec<(u32, usize, usize)>, stream: Option<std::mem::ManuallyDrop<Box<dyn PollS>>> }
 struct Shared { listeners: Vec<Listener>, sends: Vec<(u32, usize, usize, usize)>, handles: Vec<(u32, Box<dyn std::any::Any + Send>)> }
 
 fn do_create(ctx: &sched::Ctx, ch: &dyn MultiApi, sh: &Mutex<Shared>, lt: usize) -> usize {
@@ -86,15 +86,16 @@ fn do_create(ctx: &sched::Ctx, ch: &dyn MultiApi, sh: &Mutex<Shared>, lt: usize)
     let (s, id) = ch.create();
     let rpos = ctx.ret(&format!("id {id}"));
     let mut g = sh.lock().unwrap();
-    g.listeners.push(Listener { sid: id, created_at: pos, created_ret: rpos, dropped_at: None, got: vec![], stream: Some(std::mem::ManuallyDrop::new(s)) });
+    g.listeners.push(Listener { sid: id, created_at: pos, created_ret: rpos, dropped_at: None, dropped_ret: None, got: vec![], stream: Some(std::mem::ManuallyDrop::new(s)) });
     g.listeners.len() - 1
 }
 fn do_drop(ctx: &sched::Ctx, sh: &Mutex<Shared>, lt: usize, li: usize) {
-    let (mut s, sid) = { let mut g = sh.lock().unwrap(); (g.listeners[li].stream.take().unwrap(), g.listeners[li].sid) };
+    let (mut s, sid) = { let mut g = sh.lock().unwrap(); match g.listeners[li].stream.take() { Some(s) => (s, g.listeners[li].sid), None => return } };   // (being polled right now, or gone already)
     let pos = ctx.call(lt, &format!("drop {sid}"));
     sh.lock().unwrap().listeners[li].dropped_at = Some(pos);
     unsafe { std::mem::ManuallyDrop::drop(&mut s); }
-    ctx.ret("unit");
+    let r = ctx.ret("unit");
+    sh.lock().unwrap().listeners[li].dropped_ret = Some(r);
 }
 fn do_send(ctx: &sched::Ctx, ch: &dyn MultiApi, sh: &Mutex<Shared>, lt: usize, v: u32) {
     let pos = ctx.call(lt, &format!("send {v}"));
@@ -207,10 +208,12 @@ fn run_one(kind: &str, sub: &str, seed: u64, replay: Option<Vec<u8>>) -> (sched:
                 ctx.block_until(Box::new(move || sd.load(SeqCst)));
                 let mut mine: Vec<usize> = vec![];
                 for _ in 0..n {
-                    if mine.is_empty() || (mine.len() < mx - k && crng.chance(1, 2)) { mine.push(do_create(ctx, &*ch, &sh, lt)); }
+                    // a dropped pre-existing listener is part of the property's quantifier too: sometimes one of them is removed
+                    // (then the entries of the listeners with higher ids move inside `used_streams`)
+                    if crng.chance(1, 4) { do_drop(ctx, &sh, lt, crng.below(k as u64) as usize); }
+                    else if mine.is_empty() || (mine.len() < mx - k && crng.chance(1, 2)) { mine.push(do_create(ctx, &*ch, &sh, lt)); }
                     else { let li = mine.remove(0); do_drop(ctx, &sh, lt, li); }
                 }
-                // a dropped permanent listener is part of the property's quantifier too: sometimes drop one of them (the lowest id)
                 done.fetch_add(1, SeqCst);
             }));
             extra = 1;
@@ -250,6 +253,15 @@ fn run_one(kind: &str, sub: &str, seed: u64, replay: Option<Vec<u8>>) -> (sched:
     if outcome.verdict != Verdict::Completed { viol.push(("no_progress".into(), format!("{:?}", outcome.verdict))); }
     for (i, p) in outcome.panics.iter().enumerate() { if let Some(m) = p { viol.push(("panic".into(), format!("thread {i} panicked: {}", &m[..m.len().min(200)]))); } }
     let end = outcome.trace.len();
+    // listener creations / removals whose call overlapped the trace window [a, b] (stream id, 'c' | 'd'), other than listener `not`
+    let churn_in = |a: usize, b: usize, not: usize| -> Vec<(u32, char)> {
+        let mut v = vec![];
+        for (mi, m) in g.listeners.iter().enumerate() {
+            if mi == not { continue }
+            if m.created_at <= b && m.created_ret >= a { v.push((m.sid, 'c')); }
+            if let Some(d) = m.dropped_at { if d <= b && m.dropped_ret.unwrap_or(end) >= a { v.push((m.sid, 'd')); } }
+        }
+        v };
     for (li, l) in g.listeners.iter().enumerate() {
         let dropped = l.dropped_at.unwrap_or(end);
         let mut seen = std::collections::HashSet::new();
@@ -257,19 +269,31 @@ fn run_one(kind: &str, sub: &str, seed: u64, replay: Option<Vec<u8>>) -> (sched:
             if *v >= 9000 { continue }
             match g.sends.iter().find(|s| s.0 == *v) {
                 None => viol.push(("invented".into(), format!("listener #{li} (stream id {}) received {v} which no send carried", l.sid))),
-                Some(s) => if s.3 < l.created_at { viol.push(("stale_event".into(), format!("listener #{li} (stream id {}), created at trace line {}, received event {v} whose send had completed at line {} -- before the listener existed", l.sid, l.created_at, s.3))); },
+                Some(s) => if s.3 < l.created_at {
+                    let cause = if churn_in(s.2, s.3, li).iter().any(|(y, k)| *y == l.sid && *k == 'd') { "send_overlapped_the_removal_of_the_previous_owner_of_the_stream_id" } else { "send_did_not_overlap_a_removal_of_that_stream_id" };
+                    viol.push(("stale_event".into(), format!("listener #{li} (stream id {}), created at trace line {}, received event {v} whose send had completed at line {} -- before the listener existed [cause={cause}]", l.sid, l.created_at, s.3))); },
             }
-            if !seen.insert(*v) { viol.push(("duplicate".into(), format!("listener #{li} received {v} twice"))); }
+            if !seen.insert(*v) {
+                let cause = match g.sends.iter().find(|s| s.0 == *v) {
+                    Some(s) => { let ch = churn_in(s.2, s.3, li); if ch.iter().any(|(y, _)| *y < l.sid) { "entry_shifted_by_churn_of_lower_id" } else if ch.is_empty() { "no_churn_overlaps_the_send" } else { "only_higher_ids_churned" } },
+                    None => "unknown_send" };
+                viol.push(("duplicate".into(), format!("listener #{li} (stream id {}) received {v} twice [cause={cause}]", l.sid))); }
         }
         // per-producer order
         let mut last: std::collections::HashMap<usize, u32> = Default::default();
         for (v, _, _) in &l.got { if let Some(s) = g.sends.iter().find(|s| s.0 == *v) { if let Some(p) = last.insert(s.1, *v) { if p > *v { viol.push(("order".into(), format!("listener #{li} received {v} after {p} (same producer)"))); } } } }
         // completeness: a listener that existed during the whole send and was drained must have the event
-        if outcome.verdict == Verdict::Completed && (sub != "hist" || l.dropped_at.map(|d| d >= end - 4).unwrap_or(true)) {
+        // (fan / churn: only the listeners that were never removed are drained by the finalizer; a removed one yields a prefix)
+        if outcome.verdict == Verdict::Completed && (if sub == "hist" { l.dropped_at.map(|d| d >= end - 4).unwrap_or(true) } else { l.dropped_at.is_none() }) {
             for s in &g.sends { if s.0 < 9000 && s.2 > l.created_ret && s.3 < dropped && !seen.contains(&s.0) && (sub != "hist" || true) {
                 // in `hist` a listener dropped with leftovers legitimately misses them; only listeners drained at the end count
                 if sub == "hist" && l.dropped_at.is_some() && l.dropped_at.unwrap() < end - 2 - 2 * g.listeners.len() { continue }
-                viol.push(("missed_event".into(), format!("listener #{li} (stream id {}) existed from line {} to {} and was drained, but never received event {} sent in lines {}..{}", l.sid, l.created_at, dropped, s.0, s.2, s.3)));
+                // cause class: which listener creations / removals overlapped the send, and were their stream ids below the victim's?
+                // (`used_streams` is kept sorted: creating or dropping id Y rewrites the entries of the ids above Y with other values,
+                //  the entries of the ids below Y are rewritten with the values they already hold)
+                let churned: Vec<u32> = churn_in(s.2, s.3, li).iter().map(|x| x.0).collect();
+                let cause = if churned.is_empty() { "no_churn_overlaps_the_send" } else if churned.iter().any(|y| *y < l.sid) { "entry_shifted_by_churn_of_lower_id" } else { "only_higher_ids_churned" };
+                viol.push(("missed_event".into(), format!("listener #{li} (stream id {}) existed from line {} to {} and was drained, but never received event {} sent in lines {}..{} [cause={cause}; ids churned meanwhile: {:?}]", l.sid, l.created_at, dropped, s.0, s.2, s.3, churned)));
             } }
         }
     }
@@ -278,7 +302,9 @@ fn run_one(kind: &str, sub: &str, seed: u64, replay: Option<Vec<u8>>) -> (sched:
         let ids: std::collections::HashSet<usize> = g.listeners.iter().flat_map(|l| l.got.iter().filter(|x| x.0 == s.0).map(|x| x.1)).collect();
         if ids.len() > 1 { viol.push(("different_allocation".into(), format!("event {} reached its listeners through {} different allocations", s.0, ids.len()))); }
     }
-    for l in &outcome.trace { if let Some(k) = l.strip_prefix("refill ") { if kind.starts_with("ogre") && k.parse::<usize>().ok() != Some(ch.buffer()) { viol.push(("storage_leaked".into(), format!("after every listener drained and every handle was released only {k} of {} further events were accepted: payload slots stay occupied", ch.buffer()))); } } }
+    for l in &outcome.trace { if let Some(k) = l.strip_prefix("refill ") { if kind.starts_with("ogre") && k.parse::<usize>().ok() != Some(ch.buffer()) { 
+        let cause = if g.sends.iter().any(|s| s.0 < 9000 && !churn_in(s.2, s.3, usize::MAX).is_empty()) { "a_listener_was_created_or_removed_during_a_send" } else { "no_churn_overlaps_any_send" };
+        viol.push(("storage_leaked".into(), format!("after every listener drained and every handle was released only {k} of {} further events were accepted: payload slots stay occupied [cause={cause}]", ch.buffer()))); } } }
     drop(g);
     let flavor = if kind.starts_with("ogre") { "ogre" } else { "arc" };
     let cfg = format!("cfg model=multi MAX={mx} flavor={flavor} drains={}", std::env::var("VH_DRAINS").unwrap_or("0".into()));
